@@ -385,6 +385,9 @@ class ProcTable:
             raise OverflowError("signed integer is greater than maximum" if pid > 0 else
                                 "signed integer is less than minimum")
         vk.access("kill", f"kill({pid},{int(sig)})")
+        if getattr(self, "foreign", False):
+            # the procfs on display belongs to another system (PROCFS_PATH=/host/proc): none of its pids exists for our syscalls
+            raise ProcessLookupError(errno.ESRCH, os.strerror(errno.ESRCH))
         if not 0 <= int(sig) <= 64:
             # valid_signal() is checked before the target is looked up
             raise OSError(errno.EINVAL, os.strerror(errno.EINVAL))
@@ -408,6 +411,8 @@ class ProcTable:
 
     def sys_waitpid(self, vk, pid, flags):
         vk.access("waitpid", f"waitpid({pid},{flags})")
+        if getattr(self, "foreign", False):
+            raise ChildProcessError(errno.ECHILD, os.strerror(errno.ECHILD))
         hook = getattr(self, "waitpid_hook", None)
         if hook is not None:
             r = hook(pid, flags)
@@ -437,6 +442,8 @@ class ProcTable:
         err = self.deny_native.get(name)
         if err:
             raise oserr(err)
+        if getattr(self, "foreign", False):
+            raise oserr(errno.ESRCH)
         if pid == 0:
             # setpriority/getpriority(PRIO_PROCESS, 0), ioprio_*(who=0), sched_*affinity(0), prlimit(0): "the caller"
             return self.procs[self.self_pid]
